@@ -822,6 +822,45 @@ def drop_moved_away(tree, ref, path, model):
     return total
 
 
+def undo_eafp_probes(tree, ref):
+    """`try: D[k]  except KeyError: A  else: B`  (the body is nothing but the look-up, possibly bound to a local)  ->
+    `if k in D: [x = D[k]]; B  else: A`.  D is a plain name / attribute chain, k a name, attribute or literal: for a dictionary the
+    look-up fails exactly when the key is not in it.  Only where the reference function has no try of that shape itself."""
+    total = 0
+    for q, fn in functions(tree):
+        for block in _blocks(fn):
+            for i, st in enumerate(block):
+                if not (isinstance(st, ast.Try) and len(st.body) == 1 and len(st.handlers) == 1 and not st.finalbody):
+                    continue
+                h = st.handlers[0]
+                if not (h.type is not None and _txt(h.type) == 'KeyError') or (h.name and any(isinstance(n, ast.Name) and n.id == h.name for x in h.body for n in ast.walk(x))):
+                    continue
+                b = st.body[0]
+                sub = b.value if isinstance(b, ast.Expr) else b.value if (isinstance(b, ast.Assign) and len(b.targets) == 1 and isinstance(b.targets[0], ast.Name)) else None
+                if not (isinstance(sub, ast.Subscript) and not isinstance(sub.slice, ast.Slice) and isinstance(sub.value, (ast.Name, ast.Attribute)) and
+                        all(isinstance(n, (ast.Name, ast.Attribute, ast.Load)) for n in ast.walk(sub.value)) and
+                        isinstance(sub.slice, (ast.Name, ast.Attribute, ast.Constant)) and all(isinstance(n, (ast.Name, ast.Attribute, ast.Constant, ast.Load)) for n in ast.walk(sub.slice))):
+                    continue
+                if any(isinstance(n, ast.Raise) and n.exc is None for x in h.body for n in ast.walk(x)):
+                    continue                                       # a bare raise needs the exception
+                test = ast.copy_location(ast.Compare(left=copy.deepcopy(sub.slice), ops=[ast.In()], comparators=[copy.deepcopy(sub.value)]), st)
+                then = ([b] if isinstance(b, ast.Assign) else []) + list(st.orelse)
+                other = [x for x in h.body]
+                if not then:
+                    # nothing to do when the key is there: `if k not in D: A`
+                    test = ast.copy_location(ast.Compare(left=copy.deepcopy(sub.slice), ops=[ast.NotIn()], comparators=[copy.deepcopy(sub.value)]), st)
+                    new = ast.If(test=test, body=other, orelse=[])
+                elif all(isinstance(x, ast.Pass) for x in other):
+                    new = ast.If(test=test, body=then, orelse=[])
+                else:
+                    new = ast.If(test=test, body=then, orelse=other)
+                block[i] = ast.copy_location(new, st)
+                total += 1
+    if total:
+        ast.fix_missing_locations(tree)
+    return total
+
+
 def lower_match(tree, ref):
     """`match subject: case P: ...` with value, literal, class (`T()`), or-patterns and `_`  ->  the if / elif / else chain it stands
     for (`subject == V`, `isinstance(subject, T)`); a subject that is not a plain name or attribute chain is bound to a local first."""
@@ -1619,6 +1658,260 @@ def sink_flag_tails(tree, ref, ref_locals):
     return total
 
 
+def while_texts(fn):
+    return sorted(_txt(n.test) for n in _own_walk(fn) if isinstance(n, ast.While))
+
+
+def _reads(stmts, name):
+    return [n for x in stmts for n in ast.walk(x) if isinstance(n, ast.Name) and n.id == name and isinstance(n.ctx, ast.Load)]
+
+
+def _has_loose(stmts, kinds):
+    """a break / continue (``kinds``) in ``stmts`` that belongs to the enclosing loop (not to a nested one)"""
+    for x in stmts:
+        if isinstance(x, kinds):
+            return True
+        if isinstance(x, (ast.For, ast.While)):
+            if _has_loose(x.orelse, kinds):
+                return True
+            continue
+        if isinstance(x, (ast.FunctionDef, ast.AsyncFunctionDef, ast.ClassDef)):
+            continue
+        for f in ('body', 'orelse', 'finalbody'):
+            if _has_loose(getattr(x, f, []) or [], kinds):
+                return True
+        for h in getattr(x, 'handlers', []) or []:
+            if _has_loose(h.body, kinds):
+                return True
+    return False
+
+
+def reshape_loops(tree, ref, ref_locals):
+    """Loops written another way than in the reference, put back (each rewrite is meaning preserving under the stated conditions):
+    (A) `while not C: B`  ->  `while True: if C: break; B`   where the reference function has more `while True` loops;
+    (B) a counting while whose counter / flag only steers the loop  ->  `for _ in range(K)` with `break`
+        (`n = K; while n > 0: n -= 1; B[n = 0 in tail position]`, `k = 0; done = False; while not done and k < K: k += 1; B[done = True]`);
+    (C) an index loop `i = S; while i < BOUND: [x = X[i];] i += 1; B` (or the step last, without `continue`) over a bound that the body
+        cannot change  ->  `for i in range(S, BOUND)`;
+    (D) `for i in range(len(X))` whose body uses i only as `X[i]`, X a local list the body does not change  ->  `for item in X`.
+    Only where the reference function has a `for` / `while True` loop that this one lacks."""
+    total = 0
+    ref_for = ref.get('loops', {})
+    ref_wh = ref.get('whiles', {})
+    for q, fn in functions(tree):
+        want = (ref_locals or {}).get(q)
+        if want is None:
+            continue
+        params = {a.arg for a in fn.args.posonlyargs + fn.args.args + fn.args.kwonlyargs}
+        for _ in range(8):
+            n_for = len([n for n in _own_walk(fn) if isinstance(n, ast.For)])
+            n_true = len([n for n in _own_walk(fn) if isinstance(n, ast.While) and _const_truth(n.test) is True])
+            lack_for = len(ref_for.get(q, [])) > n_for
+            lack_true = len([t for t in ref_wh.get(q, []) if t in ('True', '(True)', '1')]) > n_true
+            changed = False
+            for block in _blocks(fn):
+                for i, st in enumerate(block):
+                    # ---- (D) ----
+                    if isinstance(st, ast.For) and not st.orelse and isinstance(st.target, ast.Name) and isinstance(st.iter, ast.Call) and _txt(st.iter.func) == 'range' and \
+                            not st.iter.keywords and len(st.iter.args) in (1, 2) and st.target.id not in want and st.target.id not in params:
+                        a = st.iter.args
+                        if len(a) == 2 and not (isinstance(a[0], ast.Constant) and a[0].value == 0):
+                            pass
+                        else:
+                            bound = a[-1]
+                            iv = st.target.id
+                            if isinstance(bound, ast.Call) and _txt(bound.func) == 'len' and len(bound.args) == 1 and isinstance(bound.args[0], ast.Name):
+                                X = bound.args[0].id
+                                uses = _reads(st.body, iv)
+                                subs = [n for x in st.body for n in ast.walk(x) if isinstance(n, ast.Subscript) and isinstance(n.value, ast.Name) and n.value.id == X and
+                                        isinstance(n.slice, ast.Name) and n.slice.id == iv and isinstance(n.ctx, ast.Load)]
+                                xs = [n for x in st.body for n in ast.walk(x) if isinstance(n, ast.Name) and n.id == X]
+                                after = _reads(block[i + 1:], iv)
+                                stores_iv = [n for x in st.body for n in ast.walk(x) if isinstance(n, ast.Name) and n.id == iv and isinstance(n.ctx, ast.Store)]
+                                local_list = X not in params and any(isinstance(b_, ast.Assign) and len(b_.targets) == 1 and isinstance(b_.targets[0], ast.Name) and b_.targets[0].id == X and
+                                                                     _creates_object(b_.value) for b_ in block[:i])
+                                if uses and len(uses) == len(subs) and len(xs) == len(subs) and not after and not stores_iv and local_list:
+                                    first = st.body[0]
+                                    if isinstance(first, ast.Assign) and len(first.targets) == 1 and isinstance(first.targets[0], ast.Name) and any(first.value is s_ for s_ in subs) and \
+                                            len(subs) == 1 and first.targets[0].id not in params:
+                                        item = first.targets[0].id
+                                        st.body = st.body[1:] or [ast.copy_location(ast.Pass(), first)]
+                                    else:
+                                        item = '%s_item' % X
+                                        if any(isinstance(n, ast.Name) and n.id == item for n in ast.walk(fn)):
+                                            continue
+
+                                        class S(ast.NodeTransformer):
+                                            def visit_Subscript(self, n):
+                                                if any(n is s_ for s_ in subs):
+                                                    return ast.copy_location(ast.Name(id=item, ctx=ast.Load()), n)
+                                                self.generic_visit(n)
+                                                return n
+                                        st.body = [S().visit(x) for x in st.body]
+                                    st.target = ast.copy_location(ast.Name(id=item, ctx=ast.Store()), st.target)
+                                    st.iter = ast.copy_location(ast.Name(id=X, ctx=ast.Load()), st.iter)
+                                    changed = True
+                                    total += 1
+                                    break
+                    if not isinstance(st, ast.While) or st.orelse:
+                        continue
+                    # ---- (B) counting loop that only counts ----
+                    if lack_for and i >= 1:
+                        conj = st.test.values if isinstance(st.test, ast.BoolOp) and isinstance(st.test.op, ast.And) else [st.test]
+                        cnt = flag = None
+                        K = None
+                        down = False
+                        for c in conj:
+                            if isinstance(c, ast.UnaryOp) and isinstance(c.op, ast.Not) and isinstance(c.operand, ast.Name):
+                                flag = c.operand.id
+                            elif isinstance(c, ast.Compare) and len(c.ops) == 1 and isinstance(c.left, ast.Name):
+                                r = c.comparators[0]
+                                if isinstance(c.ops[0], ast.Gt) and isinstance(r, ast.Constant) and r.value == 0:
+                                    cnt, down = c.left.id, True
+                                elif isinstance(c.ops[0], ast.Lt) and isinstance(r, ast.Constant) and isinstance(r.value, int):
+                                    cnt, K = c.left.id, r.value
+                        inits = {}
+                        j = i - 1
+                        while j >= 0 and isinstance(block[j], ast.Assign) and len(block[j].targets) == 1 and isinstance(block[j].targets[0], ast.Name) and isinstance(block[j].value, ast.Constant):
+                            inits[block[j].targets[0].id] = (j, block[j].value.value)
+                            j -= 1
+                        ok = cnt is not None and cnt in inits and len(conj) == (2 if flag else 1) and (flag is None or (inits.get(flag, (0, None))[1] is False)) and \
+                            cnt not in want and cnt not in params and (flag is None or (flag not in want and flag not in params))
+                        if ok:
+                            if down:
+                                K = inits[cnt][1]
+                                ok = isinstance(K, int) and not isinstance(K, bool) and 0 <= K <= 10000
+                            else:
+                                ok = inits[cnt][1] == 0 and isinstance(K, int)
+                        step = st.body[0] if st.body else None
+                        ok = ok and isinstance(step, ast.AugAssign) and isinstance(step.target, ast.Name) and step.target.id == cnt and isinstance(step.value, ast.Constant) and step.value.value == 1 and \
+                            isinstance(step.op, ast.Sub if down else ast.Add)
+                        if ok:
+                            body = st.body[1:]
+                            steer = {cnt: 0} if (down and flag is None) else ({flag: True} if flag else {})
+                            names = {cnt} | ({flag} if flag else set())
+                            # every mention of the steering names in the body is a tail-position `name = <leaving value>`
+                            marks = []
+
+                            def tails(stmts):
+                                if not stmts:
+                                    return
+                                last = stmts[-1]
+                                if isinstance(last, ast.Assign) and len(last.targets) == 1 and isinstance(last.targets[0], ast.Name) and last.targets[0].id in steer and \
+                                        isinstance(last.value, ast.Constant) and last.value.value is steer[last.targets[0].id] or \
+                                        (isinstance(last, ast.Assign) and len(last.targets) == 1 and isinstance(last.targets[0], ast.Name) and last.targets[0].id in steer and
+                                         isinstance(last.value, ast.Constant) and last.value.value == steer[last.targets[0].id] and not isinstance(last.value.value, bool)):
+                                    marks.append((stmts, last))
+                                elif isinstance(last, ast.If):
+                                    tails(last.body)
+                                    tails(last.orelse)
+                            tails(body)
+                            mentions_ = [n for x in body for n in ast.walk(x) if isinstance(n, ast.Name) and n.id in names]
+                            outside = [n for x in block[i + 1:] for n in ast.walk(x) if isinstance(n, ast.Name) and n.id in names and isinstance(n.ctx, ast.Load)]
+                            if len(mentions_) == len(marks) and not outside and not _has_loose(body, (ast.Break,)) and (marks or flag is None):
+                                for stmts, last in marks:
+                                    stmts[stmts.index(last)] = ast.copy_location(ast.Break(), last)
+                                loop = ast.For(target=ast.Name(id='_', ctx=ast.Store()), iter=ast.Call(func=ast.Name(id='range', ctx=ast.Load()), args=[ast.Constant(value=K)], keywords=[]),
+                                               body=body or [ast.Pass()], orelse=[], lineno=st.lineno)
+                                block[i] = ast.copy_location(loop, st)
+                                for nm in sorted(names, key=lambda n_: -inits[n_][0]):
+                                    del block[inits[nm][0]]
+                                changed = True
+                                total += 1
+                                break
+                    # ---- (C) index loop ----
+                    if lack_for and isinstance(st.test, ast.Compare) and len(st.test.ops) == 1 and isinstance(st.test.ops[0], ast.Lt) and isinstance(st.test.left, ast.Name):
+                        iv = st.test.left.id
+                        bound = st.test.comparators[0]
+                        init = [j for j in range(i) if isinstance(block[j], ast.Assign) and len(block[j].targets) == 1 and isinstance(block[j].targets[0], ast.Name) and block[j].targets[0].id == iv]
+                        steps = [k for k, x in enumerate(st.body) if isinstance(x, ast.AugAssign) and isinstance(x.target, ast.Name) and x.target.id == iv]
+                        all_stores = [n for n in ast.walk(st) if isinstance(n, ast.Name) and n.id == iv and isinstance(n.ctx, ast.Store)]
+                        if init and len(steps) == 1 and len(all_stores) == 1 and iv not in params:
+                            k = steps[0]
+                            step = st.body[k]
+                            one = isinstance(step.op, ast.Add) and isinstance(step.value, ast.Constant) and step.value.value == 1
+                            j0 = init[-1]
+                            between = block[j0 + 1:i]
+                            # the bound: a local bound once just before the loop, or len(<local the body does not touch>)
+                            stable = False
+                            if isinstance(bound, ast.Name) and bound.id not in params:
+                                stable = not any(isinstance(n, ast.Name) and n.id == bound.id and isinstance(n.ctx, ast.Store) for n in ast.walk(st))
+                            elif isinstance(bound, ast.Call) and _txt(bound.func) == 'len' and len(bound.args) == 1 and isinstance(bound.args[0], ast.Name):
+                                X = bound.args[0].id
+                                xs = [n for x in st.body for n in ast.walk(x) if isinstance(n, ast.Name) and n.id == X]
+                                subs = [n for x in st.body for n in ast.walk(x) if isinstance(n, ast.Subscript) and isinstance(n.value, ast.Name) and n.value.id == X and isinstance(n.ctx, ast.Load)]
+                                stable = len(xs) == len(subs) and X not in params and any(
+                                    isinstance(b_, ast.Assign) and len(b_.targets) == 1 and isinstance(b_.targets[0], ast.Name) and b_.targets[0].id == X and _creates_object(b_.value) for b_ in block[:i])
+                            pre, post = st.body[:k], st.body[k + 1:]
+                            pre_ok = all(isinstance(x, ast.Assign) and len(x.targets) == 1 and isinstance(x.targets[0], ast.Name) and _pure(x.value, True) for x in pre)
+                            if k == len(st.body) - 1:
+                                shape_ok = not _has_loose(st.body, (ast.Continue,))
+                            else:
+                                shape_ok = pre_ok and not _reads(post, iv)
+                            after = _reads(block[i + 1:], iv)
+                            betw_ok = all(isinstance(x, ast.Assign) and not any(isinstance(n, ast.Name) and n.id == iv for n in ast.walk(x)) for x in between)
+                            if one and stable and shape_ok and not after and betw_ok:
+                                start = block[j0].value
+                                args = [bound] if isinstance(start, ast.Constant) and start.value == 0 else [start, bound]
+                                new_body = pre + post
+                                loop = ast.For(target=ast.Name(id=iv, ctx=ast.Store()), iter=ast.Call(func=ast.Name(id='range', ctx=ast.Load()), args=args, keywords=[]),
+                                               body=new_body or [ast.Pass()], orelse=[], lineno=st.lineno)
+                                block[i] = ast.copy_location(loop, st)
+                                del block[j0]
+                                # `i = index` as the first statement, index used nowhere else: the loop variable is i
+                                lp = block[i - 1]
+                                f0 = lp.body[0] if lp.body else None
+                                if isinstance(f0, ast.Assign) and len(f0.targets) == 1 and isinstance(f0.targets[0], ast.Name) and isinstance(f0.value, ast.Name) and f0.value.id == iv and \
+                                        len(_reads(lp.body, iv)) == 1 and f0.targets[0].id not in params and \
+                                        not any(isinstance(n, ast.Name) and n.id == f0.targets[0].id and isinstance(n.ctx, ast.Store) for x in lp.body[1:] for n in ast.walk(x)):
+                                    lp.target.id = f0.targets[0].id
+                                    lp.body = lp.body[1:] or [ast.copy_location(ast.Pass(), f0)]
+                                changed = True
+                                total += 1
+                                break
+                    # ---- (A') `while True: [if C: break;] B [; if v: break]`  ->  `while not C: B`  where the reference tests at the top ----
+                    now_tests = [_txt(n.test) for n in _own_walk(fn) if isinstance(n, ast.While)]
+                    missing_tests = [t for t in ref_wh.get(q, []) if t not in ('True', '(True)', '1') and t not in now_tests]
+                    if missing_tests and _const_truth(st.test) is True and st.body:
+                        f0, fl = st.body[0], st.body[-1]
+                        if isinstance(f0, ast.If) and not f0.orelse and len(f0.body) == 1 and isinstance(f0.body[0], ast.Break) and \
+                                _txt(ast.UnaryOp(op=ast.Not(), operand=f0.test)) in missing_tests + ['not (%s)' % t for t in missing_tests] or \
+                                (isinstance(f0, ast.If) and not f0.orelse and len(f0.body) == 1 and isinstance(f0.body[0], ast.Break) and 'not ' + _txt(f0.test) in missing_tests):
+                            st.test = ast.copy_location(ast.UnaryOp(op=ast.Not(), operand=f0.test), st.test)
+                            st.body = st.body[1:] or [ast.copy_location(ast.Pass(), f0)]
+                            changed = True
+                            total += 1
+                            break
+                        if isinstance(fl, ast.If) and not fl.orelse and len(fl.body) == 1 and isinstance(fl.body[0], ast.Break) and isinstance(fl.test, ast.Name) and \
+                                'not ' + fl.test.id in missing_tests and len(st.body) > 1 and not _has_loose(st.body[:-1], (ast.Break, ast.Continue)) and \
+                                not any(isinstance(n, ast.Name) and n.id == fl.test.id and isinstance(n.ctx, ast.Load) for x in block[:i] for n in ast.walk(x)):
+                            # do-while on a flag the body sets: the first turn always runs, as with `flag = False; while not flag:`
+                            v = fl.test.id
+                            st.test = ast.copy_location(ast.UnaryOp(op=ast.Not(), operand=ast.Name(id=v, ctx=ast.Load())), st.test)
+                            st.body = st.body[:-1]
+                            block.insert(i, ast.copy_location(ast.Assign(targets=[ast.Name(id=v, ctx=ast.Store())], value=ast.Constant(value=False), lineno=st.lineno), st))
+                            changed = True
+                            total += 1
+                            break
+                    # ---- (A) ----
+                    if lack_true and _const_truth(st.test) is None:
+                        t = st.test
+                        neg = t.operand if isinstance(t, ast.UnaryOp) and isinstance(t.op, ast.Not) else ast.copy_location(ast.UnaryOp(op=ast.Not(), operand=t), t)
+                        guard = ast.copy_location(ast.If(test=neg, body=[ast.copy_location(ast.Break(), st)], orelse=[]), st)
+                        st.test = ast.copy_location(ast.Constant(value=True), t)
+                        st.body = [guard] + st.body
+                        changed = True
+                        total += 1
+                        break
+                if changed:
+                    break
+            if not changed:
+                break
+    if total:
+        ast.fix_missing_locations(tree)
+    return total
+
+
 def restore_self(tree, ref):
     """A method the reference wrote with `self` that was made a @staticmethod (it never used self) gets its first parameter back;
     `Class.m(..)` calls from methods of the class become `self.m(..)`.  Which object the function is looked up on does not change what
@@ -1895,6 +2188,7 @@ def shape_of(tree):
         'ends_with_return': sorted(q for q, f in functions(tree) if f.body and isinstance(f.body[-1], ast.Return)),
         'bool_returns': {q: _bool_returns(f) for q, f in functions(tree) if _bool_returns(f)},
         'calls': {q: call_counts(f) for q, f in functions(tree) if call_counts(f)},
+        'whiles': {q: while_texts(f) for q, f in functions(tree) if while_texts(f)},
     }
 
 
@@ -3350,6 +3644,53 @@ def lower_any_tests(tree, ref):
     return total
 
 
+def collapse_append_loops(tree, ref):
+    """`X = []; for v in IT: [if c:] X.append(e)`  ->  `X = [e for v in IT if c]`  where the reference function has a comprehension this one
+    lacks.  X is a local that nothing else touches inside the loop, v is not read after the loop."""
+    total = 0
+    known = ref.get('comps', {})
+    for q, fn in functions(tree):
+        for _ in range(4):
+            n_comp = len([n for n in ast.walk(fn) if isinstance(n, (ast.ListComp, ast.DictComp, ast.SetComp, ast.GeneratorExp))])
+            if len(known.get(q, [])) <= n_comp:
+                break
+            changed = False
+            for block in _blocks(fn):
+                for i in range(len(block) - 1):
+                    a, lp = block[i], block[i + 1]
+                    if not (isinstance(a, ast.Assign) and len(a.targets) == 1 and isinstance(a.targets[0], ast.Name) and isinstance(a.value, ast.List) and not a.value.elts and
+                            isinstance(lp, ast.For) and not lp.orelse and len(lp.body) == 1):
+                        continue
+                    X = a.targets[0].id
+                    inner, conds = lp.body[0], []
+                    while isinstance(inner, ast.If) and not inner.orelse and len(inner.body) == 1:
+                        conds.append(inner.test)
+                        inner = inner.body[0]
+                    if not (isinstance(inner, ast.Expr) and isinstance(inner.value, ast.Call) and isinstance(inner.value.func, ast.Attribute) and inner.value.func.attr == 'append' and
+                            isinstance(inner.value.func.value, ast.Name) and inner.value.func.value.id == X and len(inner.value.args) == 1 and not inner.value.keywords):
+                        continue
+                    elt = inner.value.args[0]
+                    if any(isinstance(n, ast.Name) and n.id == X for c in conds + [elt, lp.iter] for n in ast.walk(c)):
+                        continue
+                    lvars = {n.id for n in ast.walk(lp.target) if isinstance(n, ast.Name)}
+                    if any(isinstance(n, ast.Name) and n.id in lvars and isinstance(n.ctx, ast.Load) for x in block[i + 2:] for n in ast.walk(x)) or X in lvars:
+                        continue
+                    tgt = copy.deepcopy(lp.target)
+                    comp = ast.ListComp(elt=elt, generators=[ast.comprehension(target=tgt, iter=lp.iter, ifs=conds, is_async=0)])
+                    a.value = ast.copy_location(comp, lp)
+                    del block[i + 1]
+                    changed = True
+                    total += 1
+                    break
+                if changed:
+                    break
+            if not changed:
+                break
+    if total:
+        ast.fix_missing_locations(tree)
+    return total
+
+
 def expand_comprehensions(tree, ref):
     """x = [e for v in L if c] / {k: e for ...} / sum(e for ...) unknown to the reference -> initialisation + loop"""
     known = ref.get('comps', {})
@@ -3501,14 +3842,14 @@ def normalise(tree, path, ref_locals, model=None):
     if ref is None:
         return {}
     out = {}
-    for name, fn in (('moved', lambda: pull_back_moved(tree, ref, path, model) + drop_moved_away(tree, ref, path, model)), ('match', lambda: lower_match(tree, ref)), ('enums', lambda: dissolve_enums(tree, ref)), ('namedtuples', lambda: dissolve_namedtuples(tree, ref, path, model)), ('regroup', lambda: regroup_indexed_reads(tree, ref, ref_locals)), ('dataclasses', lambda: undo_dataclasses(tree, ref)), ('dispatch', lambda: undo_dispatch_tables(tree, ref)),
+    for name, fn in (('moved', lambda: pull_back_moved(tree, ref, path, model) + drop_moved_away(tree, ref, path, model)), ('match', lambda: lower_match(tree, ref)), ('eafp', lambda: undo_eafp_probes(tree, ref)), ('enums', lambda: dissolve_enums(tree, ref)), ('namedtuples', lambda: dissolve_namedtuples(tree, ref, path, model)), ('regroup', lambda: regroup_indexed_reads(tree, ref, ref_locals)), ('dataclasses', lambda: undo_dataclasses(tree, ref)), ('dispatch', lambda: undo_dispatch_tables(tree, ref)),
                      ('annotations', lambda: strip_annotations(tree, ref)), ('imports', lambda: normalise_imports(tree, ref)), ('attributes', lambda: rename_attributes(tree, ref)),
                      ('methods', lambda: rename_methods(tree, ref)), ('formats', lambda: restyle_formats(tree, ref)), ('closures', lambda: restore_closures(tree, ref) + restore_closures_from_objects(tree, ref)), ('self', lambda: restore_self(tree, ref)), ('tuples', lambda: split_tuple_bindings(tree, ref)), ('suppress', lambda: expand_suppress(tree, ref)), ('constants', lambda: _constants(tree, ref)),
                      ('observability', lambda: drop_observability(tree, ref)), ('params', lambda: default_new_params(tree, ref) + default_new_params(tree, ref)), ('initliterals', lambda: inline_init_literals(tree, ref)),
                      ('structs', lambda: inline_struct_objects(tree, ref)),
-                     ('anytests', lambda: lower_any_tests(tree, ref)), ('helpers', lambda: inline_helpers(tree, ref)), ('namedtuples2', lambda: dissolve_namedtuples(tree, ref, path, model)), ('records', lambda: scalarise_records(tree, ref)), ('tuplevars', lambda: scalarise_tuple_locals(tree, ref, ref_locals)), ('flagtails', lambda: sink_flag_tails(tree, ref, ref_locals)), ('decided', lambda: fold_decided_branches(tree, ref)), ('trivia', lambda: drop_trivia(tree, ref)), ('ifexps', lambda: expand_ifexps(tree, ref)), ('boolreturns', lambda: expand_bool_returns(tree, ref)),
+                     ('anytests', lambda: lower_any_tests(tree, ref)), ('loops', lambda: reshape_loops(tree, ref, ref_locals)), ('helpers', lambda: inline_helpers(tree, ref)), ('namedtuples2', lambda: dissolve_namedtuples(tree, ref, path, model)), ('records', lambda: scalarise_records(tree, ref)), ('tuplevars', lambda: scalarise_tuple_locals(tree, ref, ref_locals)), ('flagtails', lambda: sink_flag_tails(tree, ref, ref_locals)), ('decided', lambda: fold_decided_branches(tree, ref)), ('trivia', lambda: drop_trivia(tree, ref)), ('ifexps', lambda: expand_ifexps(tree, ref)), ('boolreturns', lambda: expand_bool_returns(tree, ref)),
                      ('unrolled', lambda: unroll_loops(tree, ref)),
-                     ('comprehensions', lambda: expand_comprehensions(tree, ref)), ('ifexps2', lambda: expand_ifexps(tree, ref)),
+                     ('comprehensions', lambda: expand_comprehensions(tree, ref) + collapse_append_loops(tree, ref)), ('ifexps2', lambda: expand_ifexps(tree, ref)),
                      ('ranges', lambda: split_live_ranges(tree, ref_locals or {})), ('temps', lambda: inline_temps(tree, path, ref_locals or {})),
                      ('decided2', lambda: _settle(tree, ref, path, ref_locals or {}))):
         try:
